@@ -1,13 +1,18 @@
 (* C18 — The shared copy-on-write map behaves like a sequential map under
    concurrency. Statements only; every proof is [exact <lemma>].
 
-   [run fixed init progs sched]: the FrimMap starts with contents [init];
+   [run cv init progs sched]: the FrimMap starts with contents [init];
    thread t executes the calls [progs !! t] in order; [sched] is ANY list of
    thread numbers, each entry lets that thread take one step (a load, a store,
    or one compare-and-swap attempt of ArcSwap::rcu). No bound on the number of
    threads, on the programs, on the key space or on the schedule.
-   [fixed = true] is remove() with its result variable reset inside the rcu
-   closure (the repaired code); [fixed = false] is the code as it was. *)
+   The calls are ALL public operations of FrimMap: insert, remove, retain,
+   replace, get, contains_key, len, is_empty, guard().iter() and
+   entry(k).or_insert_with(f) (FEntry k v, v = what f returns).
+   [VFixed] is the code that exists (remove() with its result variable reset
+   inside the rcu closure); [VAsWas] is remove() as it was before the repair;
+   [VAppend] is a variant that fills a vacant entry by appending to the copied
+   vector without filtering the key out (refuted below). *)
 From stdpp Require Import gmap.
 From Coq Require Import NArith.
 From RV Require Import Frim.FrimModel Frim.FrimProofs.
@@ -16,12 +21,22 @@ From RV Require Import Frim.FrimModel Frim.FrimProofs.
    which they took effect (ELin) form a legal history of a sequential finite
    map (gmap) — every call returned what the sequential map returns at that
    point, and the map's final contents are the contents of the shared vector —
-   the keys of the vector stay distinct, and in every thread's part of the log
-   each call's ELin lies between its ECall and its ERet, which carries the same
-   result (calls in program order). *)
+   the keys of the vector stay distinct (at most one entry per key, whatever the
+   schedule), and in every thread's part of the log each call's ELin lies
+   between its ECall and its ERet, which carries the same result (calls in
+   program order; [thread_log_ok], [call_ok]).
+   entry(k).or_insert_with(|| v) is the one call that is NOT a single atomic
+   step, and the theorem says exactly what it is instead ([call_ok]): either
+   one lookup that found v0, which is returned (occupied), or a lookup that
+   found nothing and LATER an insert(k, v) of its own value, which is returned
+   (vacant) - both between its call and its return, other calls may take effect
+   in between. So: the default function may run in several tasks for one key,
+   each of them gets its own value back, the map holds the key once, with the
+   value of the insert that took effect last (C18_entry_cas_effect,
+   C18_entry_race). *)
 Theorem C18_linearizable : forall (init : fvec) (progs : list (list fop)) (sched : list nat),
   NoDup init.*1 -> Forall (Forall op_wf) progs ->
-  let s := run true init progs sched in
+  let s := run VFixed init progs sched in
   fm_legal (lin_hist (g_log s)) (fv_abs init) (fv_abs (g_cur s)) /\
   NoDup (g_cur s).*1 /\
   forall t prog, progs !! t = Some prog -> thread_log_ok t prog (thread_log t (g_log s)).
@@ -31,7 +46,7 @@ Print Assumptions C18_linearizable.
 (* The same at the level of the code's own vector functions, without any
    hypothesis: the linearisation replays exactly on the vector. *)
 Theorem C18_linearizable_vec : forall init progs sched,
-  fv_legal (lin_hist (g_log (run true init progs sched))) init (g_cur (run true init progs sched)).
+  fv_legal (lin_hist (g_log (run VFixed init progs sched))) init (g_cur (run VFixed init progs sched)).
 Proof. exact linearizable_vec. Qed.
 Print Assumptions C18_linearizable_vec.
 
@@ -40,7 +55,7 @@ Print Assumptions C18_linearizable_vec.
    effect before guard() did — whatever other threads do while it iterates. *)
 Theorem C18_iteration_snapshot : forall init progs sched l1 t r l2,
   NoDup init.*1 -> Forall (Forall op_wf) progs ->
-  g_log (run true init progs sched) = l1 ++ ELin t FIter r :: l2 ->
+  g_log (run VFixed init progs sched) = l1 ++ ELin t FIter r :: l2 ->
   exists snap, r = RList snap /\ NoDup snap.*1 /\
     fm_legal (lin_hist l1) (fv_abs init) (fv_abs snap).
 Proof. exact iteration_snapshot. Qed.
@@ -51,7 +66,7 @@ Print Assumptions C18_iteration_snapshot.
    calls that (re)introduce k by at most one. *)
 Theorem C18_remove_unique_owner : forall init progs sched k h1 h2 h3,
   NoDup init.*1 -> Forall (Forall op_wf) progs ->
-  lin_hist (g_log (run true init progs sched)) = h1 ++ h2 ++ h3 ->
+  lin_hist (g_log (run VFixed init progs sched)) = h1 ++ h2 ++ h3 ->
   (count_if (takes_key k) h2 <= 1 + count_if (adds_key k) h2)%nat.
 Proof. exact remove_unique_owner. Qed.
 Print Assumptions C18_remove_unique_owner.
@@ -60,7 +75,7 @@ Print Assumptions C18_remove_unique_owner.
    linearizable: on a 7-step schedule of three threads both removers of the one
    entry get Some(7), and no reordering of the calls is a legal map history. *)
 Theorem C18_double_remove_refuted :
-  let s := run false [] bad_progs bad_sched in
+  let s := run VAsWas [] bad_progs bad_sched in
   thread_rets 1 (g_log s) = [ROpt (Some 7%N)] /\
   thread_rets 2 (g_log s) = [ROpt (Some 7%N)] /\
   forallb (thread_done s) [0; 1; 2]%nat = true /\
@@ -79,28 +94,89 @@ Print Assumptions C18_sequential.
 (* The correspondence runs use [full_run] (the case's schedule, then every
    thread to completion); that is a [run] of a longer schedule, so the theorems
    above cover it. *)
-Theorem C18_full_run_is_run : forall fixed init progs sched,
-  exists sched', full_run fixed init progs sched = run fixed init progs sched'.
+Theorem C18_full_run_is_run : forall cv init progs sched,
+  exists sched', full_run cv init progs sched = run cv init progs sched'.
 Proof. exact full_run_is_run. Qed.
 Print Assumptions C18_full_run_is_run.
 
 (* Progress without interference: from ANY state, a thread that is scheduled
-   twice in a row completes its current call (the retry after its own failed
-   compare-and-swap works on the current vector). *)
-Theorem C18_solo_progress : forall fixed s t o rest p,
+   three times in a row completes its current call (the retry after its own
+   failed compare-and-swap works on the current vector; an entry call on a
+   vacant key is a lookup, insert's load, insert's compare-and-swap). *)
+Theorem C18_solo_progress : forall cv s t o rest p,
   g_thr s !! t = Some (MkThread (o :: rest) p) ->
-  g_thr (step fixed s t) !! t = Some (MkThread rest PIdle) \/
-  g_thr (step fixed (step fixed s t) t) !! t = Some (MkThread rest PIdle).
+  g_thr (step cv s t) !! t = Some (MkThread rest PIdle) \/
+  g_thr (step cv (step cv s t) t) !! t = Some (MkThread rest PIdle) \/
+  g_thr (step cv (step cv (step cv s t) t) t) !! t = Some (MkThread rest PIdle).
 Proof. exact solo_progress. Qed.
 Print Assumptions C18_solo_progress.
+
+(* entry(k).or_insert_with(|| v), the insert of a vacant entry call at its
+   compare-and-swap, compared with an atomic "get, else insert" at that point:
+   identical if the key is still absent; if another task has filled the key in
+   since the lookup, the insert replaces that value by its own - the later
+   writer wins - where the atomic call would have kept and returned it. The
+   CONTENT is a map with one entry for the key in both cases. *)
+Theorem C18_entry_cas_effect : forall k v (m : gmap N N),
+  (m !! k = None ->
+     fm_next (FIns k v) m = fm_next (FEntry k v) m /\ fm_ret_ok (FEntry k v) m (RVal v)) /\
+  (forall v1, m !! k = Some v1 ->
+     fm_next (FIns k v) m = <[k := v]> m /\ fm_next (FEntry k v) m = m /\
+     fm_ret_ok (FEntry k v) m (RVal v1)).
+Proof. exact entry_cas_effect. Qed.
+Print Assumptions C18_entry_cas_effect.
+
+(* One thread alone: entry(k).or_insert_with(|| v) is its parts back to back. *)
+Theorem C18_entry_parts_sequential : forall k v (l : fvec),
+  fv_apply (FEntry k v) l =
+  match fv_find k l with
+  | Some v0 => (l, RVal v0)
+  | None => (fst (fv_apply (FIns k v) (fst (fv_apply (FGet k) l))), RVal v)
+  end.
+Proof. exact entry_parts_sequential. Qed.
+Print Assumptions C18_entry_parts_sequential.
+
+(* The race itself on the code that exists: two tasks ask for the entry of the
+   same absent key before either writes (schedule 0 1 0 0 1 1). Both find it
+   vacant, both get their own value back (7, 8), the vector holds the key once
+   with the value of the later insert (8); a third task then sees len() = 1,
+   remove(1) = Some 8, get(1) = None. *)
+Theorem C18_entry_race :
+  let s := run VFixed [] race_progs race_sched_all in
+  g_cur (run VFixed [] race_progs race_sched) = [(1, 8)]%N /\
+  thread_rets 0 (g_log s) = [RVal 7%N] /\
+  thread_rets 1 (g_log s) = [RVal 8%N] /\
+  thread_rets 2 (g_log s) = [RNum 1%N; ROpt (Some 8%N); ROpt None] /\
+  forallb (thread_done s) [0; 1; 2]%nat = true /\
+  g_cur s = [].
+Proof. exact entry_race_fixed. Qed.
+Print Assumptions C18_entry_race.
+
+(* Filling a vacant entry by appending to the copied vector WITHOUT filtering
+   the key out ("entry() has just seen that the key is absent") is NOT
+   linearizable: on the same schedule the vector holds key 1 twice, the third
+   task sees len() = 2, remove(1) = Some 7 and then get(1) = Some 8, and the
+   calls in the order in which they took effect are a history of no sequential
+   map. *)
+Theorem C18_entry_append_refuted :
+  let s := run VAppend [] race_progs race_sched_all in
+  g_cur (run VAppend [] race_progs race_sched) = [(1, 7); (1, 8)]%N /\
+  ~ NoDup (g_cur (run VAppend [] race_progs race_sched)).*1 /\
+  thread_rets 2 (g_log s) = [RNum 2%N; ROpt (Some 7%N); ROpt (Some 8%N)] /\
+  forallb (thread_done s) [0; 1; 2]%nat = true /\
+  forall e, ~ fm_legal (lin_hist (g_log s)) ∅ e.
+Proof. exact entry_append_refuted. Qed.
+Print Assumptions C18_entry_append_refuted.
 
 (* non-vacuity: the racing schedule on the repaired code; the hypotheses hold
    and the second remover gets None *)
 Example C18_example :
-  let progs := [[FIns 1 7; FRepl [(2, 5); (3, 6)]]; [FRem 1; FIter]; [FRem 1; FRetain (fun k _ => N.leb k 2)]]%N in
-  let s := full_run true [] progs bad_sched in
+  let progs := [[FIns 1 7; FRepl [(2, 5); (3, 6)]; FEntry 2 9; FEntry 4 9; FEmpty];
+                [FRem 1; FIter]; [FRem 1; FRetain (fun k _ => N.leb k 2)]]%N in
+  let s := full_run VFixed [] progs bad_sched in
   NoDup ([] : fvec).*1 /\ Forall (Forall op_wf) progs /\
-  thread_rets 1 (g_log s) = [ROpt None; RList [(2, 5); (3, 6)]]%N /\
+  thread_rets 0 (g_log s) = [RUnit; RUnit; RVal 5; RVal 9; RBool false]%N /\
+  thread_rets 1 (g_log s) = [ROpt None; RList [(2, 5); (3, 6); (4, 9)]]%N /\
   thread_rets 2 (g_log s) = [ROpt (Some 7); RUnit]%N /\
   g_cur s = [(2, 5)]%N.
 Proof.
